@@ -263,6 +263,8 @@ func checkC17(p *Prog, r *Report) {
 		wireKeyOwnership(p, r, w17, "C17", "aol", []string{"x/aol/keeper.NewKeeper"}, "AOL data")
 		wireKeyOwnership(p, r, w17, "C17", "did", []string{"x/did/keeper.NewKeeper"}, "DID documents")
 		wireKeyOwnership(p, r, w17, "C17", "pnft", []string{"x/pnft/keeper.NewKeeper"}, "denoms and tokens")
+		// addresses stay within the 255 bytes the key encoders and x/nft's length prefix can take (the SDK's own verifier)
+		checkAddressConfig(p, r, func(rule, rest string) string { return rule + ":C17:" + rest })
 		// end-of-block processing cannot be halted by a deposit: the bank's BurnCoins panics for a module account without the
 		// Burner permission, inside the burn module's EndBlock
 		modC, _ := p.ConstVal(Rel("x/burn/types"), "ModuleName")
